@@ -148,7 +148,7 @@ def _variants(sim: str, dim: int, tier: str) -> list[str]:
         # "active": an active fibre stress field tau (one value per element, zero in a passive region) on top of the law
         return [f"{l}/{a}" for l in laws for a in ("static", "newmark")] + ["NeoHookean/active"]
     if sim == "InElastic":
-        return (["vm_pe", "vm_ps"] if dim == 2 else ["vm"]) + ["vm_step"] + ([] if q else ["elastic_only"])
+        return (["vm_pe", "vm_ps", "norton_ps"] if dim == 2 else ["vm", "norton"]) + ["vm_step", "norton_step"] + (["vm_step_ps", "norton_step_ps"] if dim == 2 else []) + ([] if q else ["elastic_only"])
     if sim == "WeakForms":
         return [f"dof{n}" for n in range(dim, 0, -1)]  # first variant = the one advertising the most names
     raise KeyError(sim)
@@ -753,16 +753,20 @@ def build_InElastic(case, mesh):
     var = case["variant"]
     E, nu = 2.3, 0.28
     el = Models.Elastic.Isotropic(3, E=E, v=nu)
-    ps = var == "vm_ps"
-    step = var == "vm_step"
+    ps = var in ("vm_ps", "norton_ps", "vm_step_ps", "norton_step_ps")
+    step = "_step" in var
     if var == "elastic_only":
         beh = Models.InElastic.Behavior(dim, el, thickness=0.7)
     else:
         # generic states stay inside the elastic domain (yield stress far above the stresses of the state) except in the
         # 'vm_step' variant, where a real plastic load step is solved and committed first
+        # 'norton_*': a viscoplastic rate law on top (reading a result involves no time step)
+        rate = Models.InElastic.ViscoPlastic.Norton(1.0, 4.0) if var.startswith("norton") else None
         beh = Models.InElastic.Behavior(dim, el, Models.InElastic.Yield.VonMises(0.05 if step else 50.0),
-                                        Models.InElastic.IsotropicHardening.Linear(0.3), thickness=0.7, planeStress=ps)
+                                        Models.InElastic.IsotropicHardening.Linear(0.3), rate=rate, thickness=0.7, planeStress=ps)
     simu = Simulations.InElastic(mesh, beh)
+    if var.startswith("norton"):
+        simu.dt = 0.5
     Nn = mesh.Nn
     groups = mesh.Get_list_groupElem()
     ntr = 1
@@ -797,7 +801,13 @@ def build_InElastic(case, mesh):
 
     # the stress of a given total strain at the committed state is the elastic one of (eps - eps_p); no flow is triggered by reading it
     def law(g, e3):
-        return _iso_stress(e3 - epsp[g.elemType], dim, E, nu, ps)
+        e = e3 - epsp[g.elemType]
+        if ps:
+            # plane stress: the out-of-plane elastic strain is whatever makes sigma_zz vanish; only the in-plane elastic strain enters the reduced law
+            e = np.array(e, dtype=float)
+            e[..., 2, :] = 0.0
+            e[..., :, 2] = 0.0
+        return _iso_stress(e, dim, E, nu, ps)
 
     _elastic_like_tables(table, mesh, groups, U, dim, law, 1.0, MatrixType.rigi, with_energy=False)
     for name, slot in beh.layout.slots.items():
